@@ -35,7 +35,12 @@ def layout_src(rng, prog):
         lines.append(cur)
     head = rng.choice(["", "\n", "\n\n  \n"])
     tail = rng.choice(["", "\n", "\n\n"])
-    return head + "\n".join(lines) + tail
+    text = head + "\n".join(lines) + tail
+    # pest's NEWLINE is \n, \r\n or a bare \r: all three end a line (and a comment)
+    nl = rng.choice(["\n", "\n", "\r\n", "\r"])
+    if nl != "\n" and "%" not in text:          # macro definitions are printed with \n inside; keep those as they are
+        text = text.replace("\n", nl)
+    return text
 
 
 def gen_prog(rng, table):
